@@ -582,6 +582,9 @@ impl Monitor {
                     let r: Vec<String> = self.running.values().map(|x| x.1.to_string()).collect();
                     self.c11.violation("resume_mutators:gc-work-still-running", format!("resume_mutators called while packets are running: {:?}", r));
                 }
+                if self.designated.values().any(|v| *v > 0) {
+                    self.c11.violation("resume_mutators:designated-work-pending", format!("resume_mutators called while designated (per-worker) packets have not run: {:?}", self.designated));
+                }
                 if self.stw_pending_total() != 0 {
                     self.c11.violation("resume_mutators:stw-packets-pending", format!("resume_mutators called with {} stop-the-world packets pending", self.stw_pending_total()));
                 }
